@@ -14,6 +14,12 @@ class OracleError(Exception):
     """Internal problem of the reference model (harness error, exit 2)."""
 
 
+class ZeroControlWeight(Exception):
+    """The reference was asked for a refined representation of a rational state in which a control weight is
+    exactly 0 (only possible with weights of mixed sign): no finite (P, w) representation exists.  The runner
+    counts the case as excluded."""
+
+
 class NonFinite(Exception):
     """A NaN / infinity reached the exact conversion.  The generators never produce one, so it can only be a
     number returned by the code under test: the runner reports it as a failure of the case, not as a harness error."""
@@ -513,6 +519,9 @@ def refine_state(st, Ut, pt):
         return State(Ut, pt, Q, None, st.scalar)
     r = represent_rational(st, Ut, pt)
     if r is None:
+        den = represent(denominator_state(st), Ut, pt)
+        if den is not None and represent(numerator_state(st), Ut, pt) is not None and any(d[0] == 0 for d in den):
+            raise ZeroControlWeight()
         raise OracleError("refine_state: target is not a refinement")
     return State(Ut, pt, r[0], r[1], st.scalar)
 
